@@ -105,6 +105,8 @@ class Storage:
         e = self.plan.get((site, i))
         if e:
             self.fired.append((site, i, e))
+            if e == "INTERRUPT":
+                raise KeyboardInterrupt(f"injected interrupt at {site}#{i}")
             raise OSError(ERRNOS[e], f"injected {e} at {site}#{i}", os.fspath(path))
 
     def install(self):
@@ -368,6 +370,9 @@ def run_segment(case, seg_steps, model, root, magick):
                     except OSError as e:
                         ok = False
                         ev["exc"] = "OSError:" + errno.errorcode.get(e.errno, "?")
+                    except KeyboardInterrupt:
+                        ok = False
+                        ev["exc"] = "KeyboardInterrupt"
                     if ok and st.fired:
                         # the library swallowed an injected error and acknowledged the save
                         cnt("probe:save-acknowledged-despite-fault")
@@ -391,7 +396,7 @@ def run_segment(case, seg_steps, model, root, magick):
                         with _quiet():
                             got = darsia.imread(rpath) if op.get("via", "imread") == "imread" else imread_mod.imread_from_npz(rpath)
                         rexc = None
-                    except Exception as e:  # noqa
+                    except (Exception, KeyboardInterrupt) as e:  # noqa
                         got, rexc = None, type(e).__name__
                     ev.update(state=m["state"], exc=rexc)
                     if st.fired:
@@ -498,6 +503,9 @@ def run_segment(case, seg_steps, model, root, magick):
                     except OSError as e:
                         ok = False
                         ev["exc"] = "OSError:" + errno.errorcode.get(e.errno, "?")
+                    except KeyboardInterrupt:
+                        ok = False
+                        ev["exc"] = "KeyboardInterrupt"
                     model[key] = {"state": "ack", "corr": op["corr"], "out": res} if ok else {"state": "indet"}
                     ev["ack"] = ok
                 elif k == "corr_read":
@@ -508,7 +516,7 @@ def run_segment(case, seg_steps, model, root, magick):
                         with _quiet():
                             corr = darsia.read_correction(P)
                         rexc = None
-                    except Exception as e:  # noqa
+                    except (Exception, KeyboardInterrupt) as e:  # noqa
                         corr, rexc = None, type(e).__name__
                     ev.update(state=m["state"], exc=rexc)
                     if m["state"] == "ack" and "corr" in m and not st.fired:
@@ -533,6 +541,8 @@ def run_segment(case, seg_steps, model, root, magick):
                 raise
             except OSError as e:
                 ev["exc"] = "OSError:" + errno.errorcode.get(e.errno, "?")
+            except KeyboardInterrupt:
+                ev["exc"] = "KeyboardInterrupt"
             except Exception as e:  # noqa - an op that raises claims nothing
                 ev["exc"] = type(e).__name__
                 cnt("probe:op-raised(" + k + ":" + type(e).__name__ + ")")
@@ -735,7 +745,7 @@ class C18Engine(Engine):
                 st = fl.randint(0, len(prog) - 1)
                 site = fl.choice(["open", "write", "write", "write", "close", "flush", "read", "mkdir"])
                 occ = fl.randint(0, 25) if site == "write" else fl.randint(0, 3)
-                faults.append({"step": st, "site": site, "occurrence": occ, "errno": fl.choice(sorted(ERRNOS))})
+                faults.append({"step": st, "site": site, "occurrence": occ, "errno": fl.choice(sorted(ERRNOS) + ["INTERRUPT"])})
         return {"engine": self.name, "seed": seed, "images": images, "corrections": corrs, "program": prog,
                 "restarts": restarts, "faults": faults, "magick": cfg.choice(["absent", "absent", "present"])}
 
